@@ -38,6 +38,20 @@ CLAIMED = {
                 "not value-checked. 'Representable' is defined by the checker from the netCDF type table and IEEE-754.",
         "design_ref": "DESIGN.md section 3 / C09, rules R8, R10",
     },
+    "C17": {
+        "technique": "path-sensitive nullness / typestate abstract interpretation over clang CFGs: PNC_check_id "
+                     "contract, use-after-check in all ~900 callers, id-table pairing and scan-range rules, "
+                     "queue-emptied-before-free typestate in ncmpio_close",
+        "text": "Decides four structural clauses: (1) PNC_check_id returns NC_NOERR only with *pncp loaded from a slot "
+                "tested non-NULL; (2) each of the ~900 callers uses the PNC pointer only after testing the result; "
+                "(3) the id table: NC_ENFILE test dominates a scan over the whole table, slot store/counter/id "
+                "hand-out are paired, deletion clears and decrements; (4) ncmpio_close tests each request queue "
+                "empty or cancels it before freeing the file object and returns non-zero when requests were pending. "
+                "It does not decide absence of leaks in general (resource pairing on all early returns is not "
+                "built), nor isolation between files.",
+        "note": "Single-threaded build; callee behaviour of ncmpio_cancel/ncmpio_free_NC is not re-derived here.",
+        "design_ref": "DESIGN.md section 3 / C17, rule R3 (clauses 1, 4, 5)",
+    },
 }
 
 NA_REASON = {
